@@ -44,7 +44,7 @@ CONSTANTS
                 \* simulator picks uniformly among generated successors; a large
                 \* alphabet would otherwise starve syncs). No effect on the state graph.
 
-FeatAll == {"detach", "reattach", "remove", "compact", "force", "deactivate", "pushonly",
+FeatAll == {"detach", "reattach", "remove", "compact", "force", "deactivate", "pushonly", "revision",
             "gcoff", "build", "evict", "undo", "lateattach", "idle", "fail", "nopres", "kf-deactivate-removed", "fault", "kf-retry-dup"}
 
 Doc == "d1"
@@ -62,7 +62,7 @@ Init ==
   /\ srv = [log |-> <<>>, epoch |-> 0, removed |-> FALSE, exists |-> FALSE,
             ci |-> [c \in Clients |-> [st |-> "none", s |-> 0, c |-> 0, epoch |-> 0]],
             rows |-> [c \in Clients |-> [has |-> FALSE, vv |-> NoVV]],
-            ncompact |-> 0, cache |-> -1, setup |-> FALSE, nfaults |-> 0]
+            ncompact |-> 0, cache |-> -1, setup |-> FALSE, nfaults |-> 0, nrev |-> 0, nrestore |-> 0]
   /\ cl = [c \in Clients |-> [FreshRep EXCEPT !.st = "none"] @@ [active |-> TRUE, edits |-> 0, syncs |-> 0, nundo |-> 0]]
   /\ hist = <<>>
   /\ done = FALSE
@@ -329,6 +329,20 @@ Evict ==
   /\ Log([a |-> "evict", d |-> Doc])
   /\ UNCHANGED <<cl, done>>
 
+\* server/revisions: a revision keeps the document's content (as YSON) at the current head; restoring it
+\* pushes one change of the system client that rewrites the root to that content (C18)
+Revision ==
+  /\ ~done /\ SetupOver /\ "revision" \in Feat /\ srv.exists /\ ~srv.removed /\ srv.nrev < 1
+  /\ srv' = [srv EXCEPT !.nrev = @ + 1]
+  /\ Log([a |-> "revision", d |-> Doc])
+  /\ UNCHANGED <<cl, done>>
+
+Restore ==
+  /\ ~done /\ SetupOver /\ "revision" \in Feat /\ srv.nrev > 0 /\ srv.nrestore < 1 /\ ~srv.removed
+  /\ srv' = [srv EXCEPT !.nrestore = @ + 1]
+  /\ Log([a |-> "restore", d |-> Doc])
+  /\ UNCHANGED <<cl, done>>
+
 AllEdited == \A c \in Editors : cl[c].edits = MaxEdits
 Finish == ~done /\ SetupOver /\ (AllEdited \/ Len(hist) >= MinLen) /\ done' = TRUE /\ UNCHANGED <<srv, cl, hist>>
 
@@ -345,6 +359,7 @@ Next ==
   \/ Compact(FALSE) \/ Compact(TRUE)
   \/ \E n \in 0..BuildBack : Build(n)
   \/ Evict
+  \/ Revision \/ Restore
   \/ Finish
 
 Spec == Init /\ [][Next]_vars
